@@ -122,6 +122,12 @@ def output_writer(ctx, prog=None):
     named = [b for b in cands if b['id'].split('::')[-1] == 'check_write_file']
     if len(cands) > 1 and len(named) == 1:
         cands = named       # the name the rules were written against breaks a tie: any other reader-and-writer is then judged by W1
+    if not cands:
+        # nobody both reads and writes (the comparison may be what a change broke): the function of that name, else the only
+        # function of the file that writes at all — the rules then say what is missing in it
+        writers = [b for b in prog.bodies.values() if b['kind'] == 'fn' and str(b.get('file', '')).endswith('cli/src/writer.rs') and not b.get('derived') and any(WR.search(c['callee']) for c in b['calls'])]
+        named = [b for b in prog.bodies.values() if b['kind'] == 'fn' and str(b.get('file', '')).endswith('cli/src/writer.rs') and b['id'].split('::')[-1] == 'check_write_file']
+        cands = named if len(named) == 1 else (writers if len(writers) == 1 else [])
     if len(cands) != 1:
         from . import core
         raise core.Incomplete(f'cli/src/writer.rs: the compare-before-write writer (a function that reads a file whole and writes one) expected once, found {[b["id"] for b in cands]}')
